@@ -139,6 +139,11 @@ def load_api(only_auth=False):
                     C.write_metadata_to_file(mem, fn)
                 elif op[0] == "load":
                     mem = C.load_metadata_from_file(fn)
+                elif op[0] == "replace":
+                    mem = op[1]
+                elif op[0] == "prefill":
+                    with open(fn, "wb") as f:
+                        f.write(op[1])
                 elif op[0] == "sign":
                     S.sign_signable(mem, C.PrivateKey.from_bytes(op[1]))
                 else:
@@ -157,6 +162,52 @@ def load_api(only_auth=False):
         finally:
             shutil.rmtree(d, ignore_errors=True)
     api["persist_history"] = persist_history
+
+    def wrap_isolation(obj):
+        """wrap, then write through every container of the original / of the envelope: the other side must not move"""
+        import wire as W
+
+        def containers(v, acc):
+            if isinstance(v, dict):
+                acc.append(v)
+                for x in v.values():
+                    containers(x, acc)
+            elif isinstance(v, list):
+                acc.append(v)
+                for x in v:
+                    containers(x, acc)
+            return acc
+
+        def poke(c):
+            if isinstance(c, dict):
+                c["__poked__"] = 1
+                for k in list(c):
+                    if k != "__poked__":
+                        c[k] = None
+                        break
+            else:
+                c.append("__poked__")
+                c[0] = None
+        bad = []
+        e = S.wrap_as_signable(obj)
+        if e["signed"] is obj:
+            bad.append("the envelope holds the very same object")
+        snap = W.enc(e)
+        for c in containers(obj, []):
+            poke(c)
+            if W.enc(e) != snap:
+                bad.append("a change to the original payload shows in the envelope")
+                break
+        obj2 = W.dec(W.enc(obj))
+        e2 = S.wrap_as_signable(obj2)
+        snap2 = W.enc(obj2)
+        for c in containers(e2, []):
+            poke(c)
+            if W.enc(obj2) != snap2:
+                bad.append("a change to the envelope shows in the original payload")
+                break
+        return bad
+    api["wrap_isolation"] = wrap_isolation
 
     def sign_all_value(r, keyhex):
         d = tempfile.mkdtemp(prefix="cctw")
@@ -254,7 +305,7 @@ def load_api(only_auth=False):
     return api, classify
 
 
-MUTATORS = {"sign_signable", "persist_history"}
+MUTATORS = {"sign_signable", "persist_history", "wrap_isolation"}
 SCRIBBLE = {"build_delegating_metadata", "build_root_metadata", "wrap_as_signable", "sign_sequence", "sign_edit_sign", "sign_all_value"}
 
 
